@@ -1,6 +1,8 @@
 package main
 
 import (
+	_ "embed"
+	"encoding/json"
 	"fmt"
 	"os"
 	"math/rand"
@@ -29,6 +31,7 @@ type Feat struct {
 	Adversarial                                                     bool // adversarial scalars in free fields
 	Refs                                                            bool // reference edges between resources
 	Deprecated                                                      bool // deprecated spellings (C19)
+	Dense                                                           bool // more resources and referrers per layer
 	MaxLayers                                                       int
 }
 
@@ -49,6 +52,7 @@ type GenRes struct {
 
 // Edge: the field at Path of resource From holds the name of resource To.
 type Edge struct {
+	NoRule bool // the field is not covered by the name-reference rules: must stay UNCHANGED (external-looking)
 	From string
 	Path []interface{} // string keys and int indices
 	To   string
@@ -62,10 +66,20 @@ type KLayer struct {
 	Docs  map[string][]Obj  // resource file -> documents
 	// directives, recorded for the oracles
 	Prefix, Suffix, NS string
+	Images             []Obj
+	Replicas           []Obj
+	Patches            []PatchSpec
 	Labels             map[string]string // commonLabels (selectors included)
 	MetaLabels         map[string]string // labels without includeSelectors
 	MetaLabelsTmpl     bool
 	Annos              map[string]string
+}
+
+// PatchSpec records one generated patch: which resource it addresses and which paths it may change.
+type PatchSpec struct {
+	Target string          // tracer of the target
+	JSON   bool            // JSON6902 (else strategic merge)
+	Paths  [][]interface{} // path prefixes the patch touches
 }
 
 type Tree struct {
@@ -193,10 +207,28 @@ func setPath(o Obj, path []string, v interface{}) {
 	}
 }
 
+// sel selects the list element whose field Key has value Val (stable under list reordering by patches).
+type sel struct{ Key, Val string }
+
 func getPath(o interface{}, path []interface{}) (interface{}, bool) {
 	cur := o
 	for _, p := range path {
 		switch k := p.(type) {
+		case sel:
+			l, ok := cur.([]interface{})
+			if !ok {
+				return nil, false
+			}
+			found := false
+			for _, e := range l {
+				if m, ok := e.(map[string]interface{}); ok && m[k.Key] == k.Val {
+					cur, found = e, true
+					break
+				}
+			}
+			if !found {
+				return nil, false
+			}
 		case string:
 			m, ok := cur.(map[string]interface{})
 			if !ok {
@@ -304,8 +336,48 @@ func (t *Tree) mkSimple(r *rand.Rand, layer int, kind, name, ns string) *GenRes 
 	return t.addRes(layer, kind, name, ns, o)
 }
 
+//go:embed nameref_frozen.json
+var namerefFrozenJSON []byte
+
+var namerefFrozen map[string]bool
+
+// ruleFrozen: is (referent kind, referrer kind, table path) in the reviewed snapshot of the name-reference rules?
+// The snapshot is deliberately NOT regenerated: a rule removed from the code is still exercised by the oracle.
+func ruleFrozen(referent, referrer, path string) bool {
+	if namerefFrozen == nil {
+		namerefFrozen = map[string]bool{}
+		var es []map[string]string
+		if err := json.Unmarshal(namerefFrozenJSON, &es); err != nil {
+			panic(err)
+		}
+		for _, e := range es {
+			namerefFrozen[e["referent"]+"|"+e["referrer"]+"|"+e["path"]] = true
+		}
+	}
+	return namerefFrozen[referent+"|"+referrer+"|"+path]
+}
+
 // addPodRef adds a reference from workload w to referent b inside the pod spec and records the edge.
 func (t *Tree) addPodRef(r *rand.Rand, w, b *GenRes) {
+	n0 := len(t.Edges)
+	t.addPodRef0(r, w, b)
+	// keep only edges that are references "under the name-reference rules"
+	if len(t.Edges) > n0 {
+		e := t.Edges[len(t.Edges)-1]
+		var parts []string
+		for _, p := range e.Path {
+			if s, ok := p.(string); ok {
+				parts = append(parts, s)
+			}
+		}
+		if !ruleFrozen(b.Kind, w.Kind, strings.Join(parts, "/")) {
+			e.NoRule = true
+			t.Edges[len(t.Edges)-1] = e
+		}
+	}
+}
+
+func (t *Tree) addPodRef0(r *rand.Rand, w, b *GenRes) {
 	psp := podSpecPath(w.Kind)
 	psI, _ := getPath(w.Obj, ipath(psp))
 	ps := psI.(Obj)
@@ -325,61 +397,136 @@ func (t *Tree) addPodRef(r *rand.Rand, w, b *GenRes) {
 		switch r.Intn(3) {
 		case 0:
 			vs := lst(ps, "volumes")
-			i := add(&vs, Obj{"name": fmt.Sprintf("v%d", len(vs)), "configMap": Obj{"name": b.Name}})
+			vn := fmt.Sprintf("v%d", len(vs))
+			add(&vs, Obj{"name": vn, "configMap": Obj{"name": b.Name}})
 			ps["volumes"] = vs
-			t.Edges = append(t.Edges, Edge{w.ID, ipath(psp, "volumes", i, "configMap", "name"), b.ID})
+			t.Edges = append(t.Edges, Edge{From: w.ID, Path: ipath(psp, "volumes", sel{"name", vn}, "configMap", "name"), To: b.ID})
 		case 1:
 			es := lst(c0, "env")
-			i := add(&es, Obj{"name": fmt.Sprintf("E%d", len(es)), "valueFrom": Obj{"configMapKeyRef": Obj{"name": b.Name, "key": "k"}}})
+			en := fmt.Sprintf("E%d", len(es))
+			add(&es, Obj{"name": en, "valueFrom": Obj{"configMapKeyRef": Obj{"name": b.Name, "key": "k"}}})
 			c0["env"] = es
-			t.Edges = append(t.Edges, Edge{w.ID, ipath(psp, "containers", 0, "env", i, "valueFrom", "configMapKeyRef", "name"), b.ID})
+			t.Edges = append(t.Edges, Edge{From: w.ID, Path: ipath(psp, "containers", sel{"name", "main"}, "env", sel{"name", en}, "valueFrom", "configMapKeyRef", "name"), To: b.ID})
 		default:
 			es := lst(c0, "envFrom")
 			i := add(&es, Obj{"configMapRef": Obj{"name": b.Name}})
 			c0["envFrom"] = es
-			t.Edges = append(t.Edges, Edge{w.ID, ipath(psp, "containers", 0, "envFrom", i, "configMapRef", "name"), b.ID})
+			t.Edges = append(t.Edges, Edge{From: w.ID, Path: ipath(psp, "containers", sel{"name", "main"}, "envFrom", i, "configMapRef", "name"), To: b.ID})
 		}
 	case "Secret":
 		switch r.Intn(4) {
 		case 0:
 			vs := lst(ps, "volumes")
-			i := add(&vs, Obj{"name": fmt.Sprintf("v%d", len(vs)), "secret": Obj{"secretName": b.Name}})
+			vn := fmt.Sprintf("v%d", len(vs))
+			add(&vs, Obj{"name": vn, "secret": Obj{"secretName": b.Name}})
 			ps["volumes"] = vs
-			t.Edges = append(t.Edges, Edge{w.ID, ipath(psp, "volumes", i, "secret", "secretName"), b.ID})
+			t.Edges = append(t.Edges, Edge{From: w.ID, Path: ipath(psp, "volumes", sel{"name", vn}, "secret", "secretName"), To: b.ID})
 		case 1:
 			es := lst(c0, "env")
-			i := add(&es, Obj{"name": fmt.Sprintf("E%d", len(es)), "valueFrom": Obj{"secretKeyRef": Obj{"name": b.Name, "key": "p"}}})
+			en := fmt.Sprintf("E%d", len(es))
+			add(&es, Obj{"name": en, "valueFrom": Obj{"secretKeyRef": Obj{"name": b.Name, "key": "p"}}})
 			c0["env"] = es
-			t.Edges = append(t.Edges, Edge{w.ID, ipath(psp, "containers", 0, "env", i, "valueFrom", "secretKeyRef", "name"), b.ID})
+			t.Edges = append(t.Edges, Edge{From: w.ID, Path: ipath(psp, "containers", sel{"name", "main"}, "env", sel{"name", en}, "valueFrom", "secretKeyRef", "name"), To: b.ID})
 		case 2:
 			es := lst(c0, "envFrom")
 			i := add(&es, Obj{"secretRef": Obj{"name": b.Name}})
 			c0["envFrom"] = es
-			t.Edges = append(t.Edges, Edge{w.ID, ipath(psp, "containers", 0, "envFrom", i, "secretRef", "name"), b.ID})
+			t.Edges = append(t.Edges, Edge{From: w.ID, Path: ipath(psp, "containers", sel{"name", "main"}, "envFrom", i, "secretRef", "name"), To: b.ID})
 		default:
 			es := lst(ps, "imagePullSecrets")
 			i := add(&es, Obj{"name": b.Name})
 			ps["imagePullSecrets"] = es
-			t.Edges = append(t.Edges, Edge{w.ID, ipath(psp, "imagePullSecrets", i, "name"), b.ID})
+			t.Edges = append(t.Edges, Edge{From: w.ID, Path: ipath(psp, "imagePullSecrets", i, "name"), To: b.ID})
 		}
 	case "ServiceAccount":
 		if _, has := ps["serviceAccountName"]; !has {
 			ps["serviceAccountName"] = b.Name
-			t.Edges = append(t.Edges, Edge{w.ID, ipath(psp, "serviceAccountName"), b.ID})
+			t.Edges = append(t.Edges, Edge{From: w.ID, Path: ipath(psp, "serviceAccountName"), To: b.ID})
 		}
 	case "PersistentVolumeClaim":
 		vs := lst(ps, "volumes")
-		i := add(&vs, Obj{"name": fmt.Sprintf("v%d", len(vs)), "persistentVolumeClaim": Obj{"claimName": b.Name}})
+		vn := fmt.Sprintf("v%d", len(vs))
+		add(&vs, Obj{"name": vn, "persistentVolumeClaim": Obj{"claimName": b.Name}})
 		ps["volumes"] = vs
-		t.Edges = append(t.Edges, Edge{w.ID, ipath(psp, "volumes", i, "persistentVolumeClaim", "claimName"), b.ID})
+		t.Edges = append(t.Edges, Edge{From: w.ID, Path: ipath(psp, "volumes", sel{"name", vn}, "persistentVolumeClaim", "claimName"), To: b.ID})
 	case "Service":
 		if w.Kind == "StatefulSet" {
 			if _, has := w.Obj["spec"].(Obj)["serviceName"]; !has {
 				w.Obj["spec"].(Obj)["serviceName"] = b.Name
-				t.Edges = append(t.Edges, Edge{w.ID, ipath(nil, "spec", "serviceName"), b.ID})
+				t.Edges = append(t.Edges, Edge{From: w.ID, Path: ipath(nil, "spec", "serviceName"), To: b.ID})
 			}
 		}
 	}
+}
+
+// genReferrers adds HPA / Ingress / RoleBinding objects referring to resources of the same layer.
+func (t *Tree) genReferrers(r *rand.Rand, li int, here []*GenRes, uniq func(kind, name, ns string) bool) []*GenRes {
+	var out []*GenRes
+	for _, b := range here {
+		if r.Intn(2) == 0 {
+			continue
+		}
+		switch b.Kind {
+		case "Deployment", "StatefulSet", "ReplicaSet", "ReplicationController":
+			name := "hpa-" + b.Name
+			if !uniq("HorizontalPodAutoscaler", name, b.NS) {
+				continue
+			}
+			id := t.newID()
+			o := Obj{"apiVersion": "autoscaling/v2", "kind": "HorizontalPodAutoscaler", "metadata": meta(id, name, b.NS, nil),
+				"spec": Obj{"maxReplicas": float64(3), "scaleTargetRef": Obj{"apiVersion": apiVersionOf(b.Kind), "kind": b.Kind, "name": b.Name}}}
+			g := t.addRes(li, "HorizontalPodAutoscaler", name, b.NS, o)
+			out = append(out, g)
+			e := Edge{From: id, Path: ipath(nil, "spec", "scaleTargetRef", "name"), To: b.ID}
+			e.NoRule = !ruleFrozen(b.Kind, "HorizontalPodAutoscaler", "spec/scaleTargetRef/name")
+			t.Edges = append(t.Edges, e)
+		case "Service":
+			name := "ing-" + b.Name
+			if !uniq("Ingress", name, b.NS) {
+				continue
+			}
+			id := t.newID()
+			o := Obj{"apiVersion": "networking.k8s.io/v1", "kind": "Ingress", "metadata": meta(id, name, b.NS, nil),
+				"spec": Obj{"rules": []interface{}{Obj{"host": "h", "http": Obj{"paths": []interface{}{Obj{"path": "/", "pathType": "Prefix",
+					"backend": Obj{"service": Obj{"name": b.Name, "port": Obj{"number": float64(80)}}}}}}}}}}
+			g := t.addRes(li, "Ingress", name, b.NS, o)
+			out = append(out, g)
+			e := Edge{From: id, Path: ipath(nil, "spec", "rules", 0, "http", "paths", 0, "backend", "service", "name"), To: b.ID}
+			e.NoRule = !ruleFrozen("Service", "Ingress", "spec/rules/http/paths/backend/service/name")
+			t.Edges = append(t.Edges, e)
+		case "Role", "ClusterRole":
+			kind := "RoleBinding"
+			ns := b.NS
+			if b.Kind == "ClusterRole" && r.Intn(2) == 0 {
+				kind, ns = "ClusterRoleBinding", ""
+			}
+			name := "rb-" + b.Name
+			if !uniq(kind, name, ns) {
+				continue
+			}
+			id := t.newID()
+			o := Obj{"apiVersion": "rbac.authorization.k8s.io/v1", "kind": kind, "metadata": meta(id, name, ns, nil),
+				"roleRef": Obj{"apiGroup": "rbac.authorization.k8s.io", "kind": b.Kind, "name": b.Name}}
+			var subj []interface{}
+			for _, sa := range here {
+				if sa.Kind == "ServiceAccount" && r.Intn(2) == 0 {
+					sns := sa.NS
+					if sns == "" {
+						sns = "default"
+					}
+					subj = append(subj, Obj{"kind": "ServiceAccount", "name": sa.Name, "namespace": sns})
+				}
+			}
+			subj = append(subj, Obj{"kind": "User", "name": "someone", "apiGroup": "rbac.authorization.k8s.io"})
+			o["subjects"] = subj
+			g := t.addRes(li, kind, name, ns, o)
+			out = append(out, g)
+			e := Edge{From: id, Path: ipath(nil, "roleRef", "name"), To: b.ID}
+			e.NoRule = !ruleFrozen(b.Kind, kind, "roleRef/name")
+			t.Edges = append(t.Edges, e)
+		}
+	}
+	return out
 }
 
 // ---- tree generation ----
@@ -397,6 +544,9 @@ func genTree(r *rand.Rand, f Feat) *Tree {
 		nres := 1 + r.Intn(4)
 		if li > 0 {
 			nres = r.Intn(3)
+		}
+		if f.Dense {
+			nres += 3
 		}
 		var here []*GenRes
 		uniq := func(kind, name, ns string) bool {
@@ -426,7 +576,7 @@ func genTree(r *rand.Rand, f Feat) *Tree {
 				}
 				here = append(here, t.mkSimple(r, li, kind, name, ns))
 			case 6:
-				kind := pickS(r, []string{"MyKind", "OtherKind", "Role", "ClusterRole", "Namespace", "CustomResourceDefinition"})
+				kind := pickS(r, []string{"MyKind", "OtherKind", "Role", "ClusterRole", "Namespace", "CustomResourceDefinition", "ServiceAccount", "Role"})
 				name := pickS(r, fam)
 				if kind == "Namespace" {
 					name = pickS(r, []string{"ns1", "ns2", "ns3"})
@@ -469,6 +619,9 @@ func genTree(r *rand.Rand, f Feat) *Tree {
 				}
 			}
 		}
+		if f.Refs && f.Dense {
+			here = append(here, t.genReferrers(r, li, here, uniq)...)
+		}
 		// distribute into files
 		for i, gr := range here {
 			fn := fmt.Sprintf("res%d.yaml", i/2)
@@ -478,6 +631,7 @@ func genTree(r *rand.Rand, f Feat) *Tree {
 			L.Docs[fn] = append(L.Docs[fn], gr.Obj)
 		}
 		t.genDirectives(r, li, L, here)
+		t.genPatches(r, li, L)
 	}
 	return t
 }
@@ -518,6 +672,98 @@ func (t *Tree) genDirectives(r *rand.Rand, li int, L *KLayer, here []*GenRes) {
 			L.Annos["adv"] = pickS(r, []string{"yes", "012", "1e3", "true", "123", "null", "on"})
 		}
 		L.Kust["commonAnnotations"] = toObj(L.Annos)
+	}
+}
+
+// genPatches adds images / replicas / patches directives addressing resources visible at this layer.
+func (t *Tree) genPatches(r *rand.Rand, li int, L *KLayer) {
+	f := t.Feat
+	var visible []*GenRes
+	for _, g := range t.Res {
+		if g.Layer <= li && !g.Gen {
+			visible = append(visible, g)
+		}
+	}
+	if len(visible) == 0 {
+		return
+	}
+	if f.Images && r.Intn(3) == 0 {
+		e := Obj{"name": pickS(r, []string{"nginx", "busybox", "mynginx", "registry:5000/nginx"})}
+		switch r.Intn(3) {
+		case 0:
+			e["newTag"] = pickS(r, []string{"2.0", "latest"})
+		case 1:
+			e["newName"] = "repo/other"
+		default:
+			e["newName"] = "repo/other"
+			e["digest"] = "sha256:1234"
+		}
+		L.Images = append(L.Images, e)
+		L.Kust["images"] = []interface{}{e}
+	}
+	if f.Replicas && r.Intn(4) == 0 {
+		var cands []*GenRes
+		for _, g := range visible {
+			switch g.Kind {
+			case "Deployment", "StatefulSet", "ReplicaSet", "ReplicationController":
+				cands = append(cands, g)
+			}
+		}
+		if len(cands) > 0 {
+			g := cands[r.Intn(len(cands))]
+			// the replicas entry names the resource by its name *at this layer*; only original names are
+			// predictable here, so it is used when no inner layer renames
+			renamed := false
+			for j := g.Layer; j < li; j++ {
+				if t.Layers[j].Prefix != "" || t.Layers[j].Suffix != "" {
+					renamed = true
+				}
+			}
+			if !renamed {
+				e := Obj{"name": g.Name, "count": float64(2 + r.Intn(5))}
+				L.Replicas = append(L.Replicas, e)
+				L.Kust["replicas"] = []interface{}{e}
+			}
+		}
+	}
+	var plist []interface{}
+	if f.PatchSM && r.Intn(3) == 0 {
+		g := visible[r.Intn(len(visible))]
+		md := Obj{"name": g.Name}
+		if g.NS != "" {
+			md["namespace"] = g.NS
+		}
+		p := Obj{"apiVersion": apiVersionOf(g.Kind), "kind": g.Kind, "metadata": md}
+		ps := PatchSpec{Target: g.ID}
+		switch {
+		case g.Kind == "MyKind" || g.Kind == "OtherKind":
+			p["spec"] = Obj{"items": []interface{}{Obj{"name": "a", "v": float64(9)}}}
+			ps.Paths = append(ps.Paths, ipath(nil, "spec", "items"))
+		case (g.Kind == "Deployment" || g.Kind == "StatefulSet" || g.Kind == "DaemonSet") && r.Intn(2) == 0:
+			p["spec"] = Obj{"template": Obj{"spec": Obj{"containers": []interface{}{Obj{"name": "main", "env": []interface{}{Obj{"name": "ADDED", "value": "1"}}}}}}}
+			ps.Paths = append(ps.Paths, ipath(nil, "spec", "template", "spec", "containers"))
+		default:
+			md["annotations"] = Obj{"patched": pickS(r, []string{"yes", "v", "012"})}
+			ps.Paths = append(ps.Paths, ipath(nil, "metadata", "annotations", "patched"))
+		}
+		b, _ := yaml.Marshal(p)
+		if r.Intn(2) == 0 {
+			fn := fmt.Sprintf("patch%d.yaml", len(L.Files))
+			L.Files[fn] = string(b)
+			plist = append(plist, Obj{"path": fn})
+		} else {
+			plist = append(plist, Obj{"patch": string(b)})
+		}
+		L.Patches = append(L.Patches, ps)
+	}
+	if f.PatchJSON && r.Intn(4) == 0 {
+		g := visible[r.Intn(len(visible))]
+		ops := "- op: add\n  path: /metadata/annotations/jp\n  value: \"" + pickS(r, []string{"v", "on", "1e3"}) + "\"\n"
+		plist = append(plist, Obj{"target": Obj{"kind": g.Kind, "name": g.Name}, "patch": ops})
+		L.Patches = append(L.Patches, PatchSpec{Target: g.ID, JSON: true, Paths: [][]interface{}{ipath(nil, "metadata", "annotations", "jp")}})
+	}
+	if len(plist) > 0 {
+		L.Kust["patches"] = plist
 	}
 }
 
